@@ -3,6 +3,9 @@ package telemetry
 // C19 driver (collector level): the HTTP transport is replaced by a recorder.
 
 import (
+	"fmt"
+	"strings"
+	"regexp"
 	"bytes"
 	"encoding/json"
 	"io"
@@ -114,6 +117,51 @@ func TestVerifC19Collector(t *testing.T) {
 			out.emit(vM{"k": "violation", "sig": "payload-leaks-datadir", "what": "the telemetry body contains the data directory", "case": vM{"k": "payload", "body": string(b)}})
 		}
 		break
+	}
+	// the instance id: random (UUID v4), also when it cannot be saved -- then no collector at all, or
+	// a collector whose id is still random; never something derived from the host or the configuration
+	host, _ := os.Hostname()
+	uuidRe := regexp.MustCompile(`^[0-9a-f]{8}-[0-9a-f]{4}-4[0-9a-f]{3}-[89ab][0-9a-f]{3}-[0-9a-f]{12}$`)
+	checkID := func(scenario string, body []byte, dirName string) {
+		var v map[string]interface{}
+		if json.Unmarshal(body, &v) != nil {
+			return
+		}
+		id, _ := v["instance_id"].(string)
+		if !uuidRe.MatchString(id) || (host != "" && strings.Contains(id, host)) || strings.Contains(id, dirName) {
+			out.emit(vM{"k": "violation", "sig": "instance-id-not-random", "what": fmt.Sprintf("%s: the report's instance_id is %q, not a random UUID (host %q, data directory %q)", scenario, id, host, dirName),
+				"case": vM{"k": "payload", "body": string(body)}})
+		}
+	}
+	for _, b := range rec.bodies {
+		checkID("fresh data directory", b, "SECRET-DATA-DIR-7f3a")
+		break
+	}
+	for i, fault := range []string{"id-file-is-a-directory", "data-dir-is-a-file"} {
+		dirName := fmt.Sprintf("acme-payments-%d", i)
+		dd := filepath.Join(base, dirName)
+		os.RemoveAll(dd)
+		switch fault {
+		case "id-file-is-a-directory":
+			os.MkdirAll(filepath.Join(dd, instanceIDFile), 0o755)
+		case "data-dir-is-a-file":
+			os.MkdirAll(base, 0o755)
+			os.WriteFile(dd, []byte("x"), 0o644)
+		}
+		rec2 := &vRecorder{}
+		c2, err := New(&Config{Enabled: true, Interval: 10 * time.Millisecond, DataDir: dd}, "v-test", lg)
+		out.emit(vM{"k": "idfault", "fault": fault, "collector": err == nil})
+		if err != nil || c2 == nil {
+			continue
+		}
+		c2.client = &http.Client{Transport: rec2}
+		c2.Start()
+		time.Sleep(40 * time.Millisecond)
+		c2.Stop()
+		for _, b := range rec2.bodies {
+			checkID(fault, b, dirName)
+			break
+		}
 	}
 	for _, u := range rec.urls {
 		if u != DefaultEndpoint {
